@@ -10,8 +10,8 @@ import (
 	astisub "github.com/asticode/go-astisub"
 )
 
-func encStr(s string) string    { return "x" + hex.EncodeToString([]byte(s)) }
-func encBytes(b []byte) string  { return "x" + hex.EncodeToString(b) }
+func encStr(s string) string   { return "x" + hex.EncodeToString([]byte(s)) }
+func encBytes(b []byte) string { return "x" + hex.EncodeToString(b) }
 
 // mItem is the harness-side mirror of the Lean `Item`
 type mItem struct {
